@@ -98,15 +98,29 @@ def get_widths2(seq: Iterable[object]) -> Dict[int, Tuple[float, Point]]:
             if r:
                 char1 = r[-1]
                 for i, (w, vx, vy) in enumerate(choplist(3, resolve_all(v))):
+                    if not all(isinstance(x, (int, float)) for x in (w, vx, vy)):
+                        log.warning(
+                            f"Skipping invalid vertical font metrics {(w, vx, vy)!r} because not all of them are numbers"
+                        )
+                        continue
                     widths[cast(int, char1) + i] = (w, (vx, vy))
                 r = []
         elif isinstance(v, (int, float)):  # == utils.isnumber(v)
             r.append(v)
             if len(r) == 5:
                 (char1, char2, w, vx, vy) = r
-                for i in range(cast(int, char1), cast(int, char2) + 1):
-                    widths[i] = (w, (vx, vy))
+                if isinstance(char1, int) and isinstance(char2, int):
+                    for i in range(cast(int, char1), cast(int, char2) + 1):
+                        widths[i] = (w, (vx, vy))
+                else:
+                    log.warning(
+                        f"Skipping invalid font width specification for {char1} to {char2} because either of them is not an int"
+                    )
                 r = []
+        else:
+            log.warning(
+                f"Skipping invalid font width specification for {v} because it is not a number or a list"
+            )
     return widths
 
 
@@ -1183,7 +1197,7 @@ class PDFCIDFont(PDFFont):
             # writing mode: vertical
             widths2 = get_widths2(list_value(spec.get("W2", [])))
             self.disps = {cid: (vx, vy) for (cid, (_, (vx, vy))) in widths2.items()}
-            (vy, w) = resolve1(spec.get("DW2", [880, -1000]))
+            (vy, w) = self._parse_dw2(spec)
             self.default_disp = (None, vy)
             # Glyphs without a W2 entry have the position vector (w0 / 2, vy),
             # w0 being the horizontal width from W / DW.
@@ -1200,8 +1214,26 @@ class PDFCIDFont(PDFFont):
             self.disps = {}
             self.default_disp = 0
             widths = get_widths(list_value(spec.get("W", [])))
-            default_width = spec.get("DW", 1000)
+            default_width = num_value(spec.get("DW", 1000))
         PDFFont.__init__(self, descriptor, widths, default_width=default_width)
+
+    @staticmethod
+    def _parse_dw2(spec: Mapping[str, Any]) -> Tuple[float, float]:
+        """Parse DW2, the default metrics for vertical writing.
+
+        :returns: the vertical component of the position vector and the
+          vertical displacement
+        """
+        default = (880, -1000)
+        if "DW2" not in spec:
+            return default
+        dw2 = [resolve1(v) for v in list_value(spec["DW2"])]
+        if len(dw2) != 2 or not all(isinstance(v, (int, float)) for v in dw2):
+            log.warning(
+                f"Could not get DW2 from font because {dw2!r} is not a pair of numbers"
+            )
+            return default
+        return dw2[0], dw2[1]
 
     def get_cmap_from_spec(self, spec: Mapping[str, Any], strict: bool) -> CMapBase:
         """Get cmap from font specification
